@@ -82,6 +82,10 @@ type childOp struct {
 	// TmpDir, when set, becomes the child's TMPDIR before anything else happens: the system's temporary directory
 	// is on another file system than the storage directory (rename across them fails with EXDEV)
 	TmpDir string `json:"tmpdir,omitempty"`
+	// Unpriv: the child gives up root (uid / gid 65534) before it touches the storage: the parent has made the storage
+	// directory read-only (0555) and its files writable by everybody (0666), as on a device whose configuration partition
+	// is mounted for one user and used by another
+	Unpriv bool `json:"unprivileged,omitempty"`
 }
 
 func accessories(variant string) (*accessory.Accessory, []*accessory.Accessory) {
@@ -121,6 +125,20 @@ func childMain(arg string) {
 	log.Debug.SetOutput(io.Discard)
 	if op.TmpDir != "" {
 		os.Setenv("TMPDIR", op.TmpDir)
+	}
+	if op.Unpriv {
+		if err := syscall.Setgroups([]int{}); err != nil {
+			fmt.Fprintln(os.Stderr, "child: setgroups:", err)
+			os.Exit(5)
+		}
+		if err := syscall.Setgid(65534); err != nil {
+			fmt.Fprintln(os.Stderr, "child: setgid:", err)
+			os.Exit(5)
+		}
+		if err := syscall.Setuid(65534); err != nil {
+			fmt.Fprintln(os.Stderr, "child: setuid:", err)
+			os.Exit(5)
+		}
 	}
 
 	var st util.Storage
@@ -490,6 +508,18 @@ func runChild(opFile, traceFile, inject string) runResult {
 func (sc *scenario) materialise(dst string) error {
 	if err := copyDir(filepath.Join(sc.dir, "template"), dst); err != nil {
 		return err
+	}
+	if sc.Op.Unpriv {
+		infos, err := ioutil.ReadDir(dst)
+		if err != nil {
+			return err
+		}
+		for _, fi := range infos {
+			if err := os.Chmod(filepath.Join(dst, fi.Name()), 0o666); err != nil {
+				return err
+			}
+		}
+		return os.Chmod(dst, 0o555)
 	}
 	if !sc.Links {
 		return nil
@@ -1455,6 +1485,32 @@ func main() {
 		scs = append(scs, more...)
 		r.Count("scenarios_with_symbolic_links", len(more))
 	}
+	// the same writes by a process without root on a read-only storage directory whose files it may write
+	if traversable(root) {
+		var more []*scenario
+		picked := map[string]int{}
+		for _, sc := range scs {
+			if sc.Op.TmpDir != "" || sc.Links || sc.Kind == "transport-config" || sc.Class == "new-key" {
+				continue
+			}
+			lim := 1
+			if sc.Kind == "set" {
+				lim = r.Pick(4, 12)
+			}
+			if picked[sc.Kind] >= lim {
+				continue
+			}
+			picked[sc.Kind]++
+			c := *sc
+			c.ID = sc.ID + "+unprivileged-process-read-only-directory"
+			c.Op.Unpriv = true
+			more = append(more, &c)
+		}
+		scs = append(scs, more...)
+		r.Count("scenarios_as_unprivileged_process", len(more))
+	} else {
+		r.Count("unprivileged_scenarios_not_possible(work directory not reachable for other users)", 1)
+	}
 	for i, sc := range scs {
 		sc.ID = fmt.Sprintf("%03d-%s", i, sc.ID) // unique: the id names the scenario's directory
 	}
@@ -1555,7 +1611,7 @@ func main() {
 				writeOp(bdir, sc.Op, opf)
 				tf := filepath.Join(sc.dir, "base.strace")
 				res := runChild(opf, tf, "")
-				if res.TimedOut || res.ExitCode != 0 {
+				if res.TimedOut || (res.ExitCode != 0 && !(sc.Op.Unpriv && res.ExitCode == 3)) {
 					sc.skipped = fmt.Sprintf("baseline run failed: %+v", res)
 					return
 				}
@@ -1584,7 +1640,8 @@ func main() {
 				sc.baseNew = observe(bdir, ask)
 				r.Count("no_crash_runs", 1)
 				r.Eval()
-				if fs := sc.check(sc.baseNew, false); len(fs) > 0 {
+				// (an operation that may be refused by the environment leaves the old state or the new one, like a killed one)
+				if fs := sc.check(sc.baseNew, sc.Op.Unpriv); len(fs) > 0 {
 					report(sc, nil, fs, sc.baseNew, markedThreadExcerpt(tr, tid, 14), tf)
 				}
 			})
@@ -1600,6 +1657,10 @@ func main() {
 		r.Distinct("scenario_class", sc.label())
 		if sc.skipped != "" {
 			r.Inconclusive("scenario " + sc.ID + ": " + sc.skipped)
+			continue
+		}
+		if len(sc.points) == 0 && sc.Op.Unpriv {
+			r.Count("unprivileged_scenarios_in_which_nothing_is_changed(the operation is refused)", 1)
 			continue
 		}
 		if len(sc.points) == 0 {
@@ -1857,4 +1918,25 @@ func otherFS(dir string) (string, bool) {
 		return "", false
 	}
 	return d, true
+}
+
+// traversable: every directory on the way to dir (and the monitor's own binary) can be entered by other users.
+func traversable(dir string) bool {
+	abs, err := filepath.Abs(dir)
+	if err != nil {
+		return false
+	}
+	exe, _ := os.Executable()
+	for _, start := range []string{abs, filepath.Dir(exe)} {
+		for p := start; p != "/" && p != "."; p = filepath.Dir(p) {
+			st, err := os.Stat(p)
+			if err != nil || st.Mode().Perm()&0o005 != 0o005 {
+				return false
+			}
+		}
+	}
+	if st, err := os.Stat(exe); err != nil || st.Mode().Perm()&0o005 != 0o005 {
+		return false
+	}
+	return os.Geteuid() == 0
 }
